@@ -254,3 +254,32 @@ Proof. unfold src_ta_term_offset, src_ta_resulting_offset, src_ta_trips. srcT_no
 Lemma src_ta_padding_eq m off tl :
   src_ta_pads m off tl = Ok (off <? tl) /\ src_ta_padding_length m tl off = sub32 m tl off.
 Proof. unfold src_ta_pads, src_ta_padding_length. split; src_robust. Qed.
+
+(* ---- ExclusiveTermAppender lengths (ExclAppender.eta_claim and the eta_append functions) ---- *)
+Lemma src_xta_unfrag_eq m len term_offset :
+  (fl <- src_xta_frame_length m len ;; al <- src_xta_aligned_length m fl ;; r <- src_xta_resulting_offset m term_offset al ;;
+   Ok (fl, al, r)) = ('(fl, al) <- unfrag_lengths m len ;; r <- add32 m term_offset al ;; Ok (fl, al, r)).
+Proof. unfold src_xta_frame_length, src_xta_aligned_length, src_xta_resulting_offset, unfrag_lengths. cbv zeta.
+  rewrite !bind_assoc.
+  replace (add32 m len GenConsts.DFH_LENGTH) with (add32 m len HDR) by reflexivity.
+  first [ apply bind_ext; intros fl _
+        | (replace (add32 m GenConsts.DFH_LENGTH len) with (add32 m len HDR) by (unfold add32; f_equal; unfold HDR; lia));
+          apply bind_ext; intros fl _ ].
+  rewrite src_align_FA, bind_assoc. apply bind_ext; intros al _. cbn [bind].
+  apply bind_ext; intros r _. reflexivity. Qed.
+
+Lemma src_xta_required_length_eq m len mpl : ~ (len = - two31 /\ mpl = -1) ->
+  src_xta_required_length m len mpl = frag_required m len mpl.
+Proof. intros Hn. unfold src_xta_required_length, frag_required, div32, rem32, rem_t. cbv zeta.
+  destruct (mpl =? 0) eqn:Z0; [reflexivity|].
+  replace ((len =? - two31) && (mpl =? -1)) with false by lia. cbn [bind].
+  rewrite <- (src_ta_last_frame_length_eq m (Z.rem len mpl)). unfold src_ta_last_frame_length.
+  first [ reflexivity | src_robust ]. Qed.
+
+Lemma src_xta_decisions_eq m term_offset required resulting tl :
+  src_xta_frag_resulting_offset m term_offset required = add32 m term_offset required /\
+  src_xta_trips m resulting tl = Ok (tl <? resulting) /\
+  src_xta_pads m term_offset tl = Ok (term_offset <? tl) /\
+  src_xta_padding_length m tl term_offset = sub32 m tl term_offset.
+Proof. unfold src_xta_frag_resulting_offset, src_xta_trips, src_xta_pads, src_xta_padding_length.
+  split; [|split; [|split]]; src_robust. Qed.
